@@ -11,3 +11,6 @@ func raceRelease(unsafe.Pointer) {}
 func raceAcquire(unsafe.Pointer) {}
 
 const RaceEnabled = false
+
+func RaceRelease(unsafe.Pointer) {}
+func RaceAcquire(unsafe.Pointer) {}
